@@ -54,6 +54,10 @@ func vNoise(tp *verifsim.Tape, n int, lfFree bool) []byte {
 }
 
 func vScenarioC13(rc *runCtx) {
+	if rc.param("backpressure", "0") == "1" {
+		vC13Backpressure(rc)
+		return
+	}
 	tp := rc.tape
 	w := rc.w
 	vOvertake = rc.param("overtake", "0") == "1"
